@@ -11,6 +11,7 @@ open Emboss.Types
 #print axioms C13_enum_value_counterexample
 #print axioms C13_attr_value_ok
 #print axioms C13_constant_attr_mentions_no_field
+#print axioms C13_constant_attr_has_one_value
 #print axioms C13_module_accepted_iff_partial
 #print axioms C13_total_partial
 #print axioms C13_total_natural_partial
